@@ -238,13 +238,11 @@ class Vector():
 				return 0xDEADBEEFCAFEBABE
 			return hash(x)
 
-		if isinstance(x, set):
-			rep = _safe_sortable_list(list(x))
-			return Vector._hash_element(tuple(rep))
-
-		if isinstance(x, (list, tuple)):
-			h = 0
-			for elem in x:
+		if isinstance(x, (set, list, tuple)):
+			items = _safe_sortable_list(list(x)) if isinstance(x, set) else x
+			# seed with the container's kind and length: 0, [0], (0,), (0, 0), {0} and () are different values
+			h = (1 if isinstance(x, set) else 2 if isinstance(x, tuple) else 3) + 3 * len(items)
+			for elem in items:
 				h = (h * B + Vector._hash_element(elem)) % P
 			return h
 
